@@ -108,6 +108,9 @@ def reuse_programs():
                     'Signal r = (x < 7) + (7 >= x) + (x <= 7) + (7 > x);\nSignal u = ((x < y) : 5) + ((y >= x) : 5);\n')
     # an int variable initialised by a constant expression is itself a constant (signal-literal values need integers)
     yield "dag17", ('int x = 7;\nint y = x * 3;\nSignal s = ("signal-A", y);\nSignal a = ("signal-B", 2);\nSignal r = s + a;\nSignal q = a * (y - 1);\n')
+    # a signal literal whose VALUE is only known at run time carries that value (not 0)
+    yield "dag18", ('Signal x = ("signal-X", 5);\nSignal r = ("signal-A", x + 1);\nSignal q = r * 2;\n')
+    yield "dag18b", ('Signal x = ("signal-A", 5);\nSignal y = ("iron-plate", 2);\nSignal r = ("signal-A", x);\nSignal q = (y.type, x - 1);\n')
     yield "dag15b", ('Signal a = ("signal-A", 4);\nSignal b = ("signal-A", 5);\nSignal r = (a + b) - a;\nSignal q = (a + b) * b;\n')
 
 
